@@ -467,7 +467,7 @@ func genFactors(t *rapid.T) []Factor {
 }
 
 func TestGeneratorDialect(t *testing.T) {
-	harness.Rapid(t, harness.N(5000, 16*40000), func(t *rapid.T) {
+	harness.Rapid(t, harness.N(15000, 16*40000), func(t *rapid.T) {
 		cmds, labels := genCmds(t, true, true, true)
 		c := Case{Dialect: "generator", Cmds: cmds, Adj: uint8(rapid.IntRange(0, 6).Draw(t, "adj")), Factors: genFactors(t)}
 		c.D = render(t, cmds, "generator")
@@ -480,7 +480,7 @@ func TestGeneratorDialect(t *testing.T) {
 }
 
 func TestConverterDialect(t *testing.T) {
-	harness.Rapid(t, harness.N(5000, 16*40000), func(t *rapid.T) {
+	harness.Rapid(t, harness.N(15000, 16*40000), func(t *rapid.T) {
 		cmds, labels := genCmds(t, false, false, false)
 		c := Case{Dialect: "converter", Cmds: cmds, Adj: uint8(rapid.IntRange(0, 6).Draw(t, "adj"))}
 		c.Size = ops.F32(rapid.SampledFrom([]float32{12, 18, 24, 36, 48}).Draw(t, "size"))
@@ -759,7 +759,7 @@ var subFile = harness.Define("converter-paths", "generated lists of converter-di
 
 func TestConverterPathsAndFiles(t *testing.T) {
 	nFile := 0
-	harness.Rapid(t, harness.N(1500, 16*10000), func(t *rapid.T) {
+	harness.Rapid(t, harness.N(4000, 16*10000), func(t *rapid.T) {
 		var c FileCase
 		c.Size = rapid.SampledFrom([]int{12, 18, 24, 36, 48}).Draw(t, "size")
 		c.OutSize = 48
